@@ -228,8 +228,28 @@ def gen_field_name():
         ranges.append((lo, hi))
     if not ranges or tok.sub('', text).replace('|', '').strip():
         raise TranslateError(f'field-name pattern outside the fragment: {text.strip()!r}')
-    out = ['/-! GENERATED from ohkami/src/request/mod.rs: the bytes admitted in a request header name (closed ranges) -/', 'namespace Ohkami.Gen',
-           'def fieldNameRanges : List (Nat × Nat) := [' + ', '.join(f'({a}, {b})' for a, b in ranges) + ']', 'end Ohkami.Gen']
+    # the bytes admitted in a header VALUE: the `matches!` pattern between reading the value and storing it (none: every byte but CR is admitted)
+    mv = re.search(r"let value = r\.read_while\(\|b\| b != &b'\\r'\);(.*?)let value = CowSlice::Ref", rq, re.S)
+    if not mv:
+        raise TranslateError('header loop of Request::read: reading and storing of the value not found')
+    vchk = re.search(r"value\.iter\(\)\.all\(\|b\| matches!\(b,(.*?)\)\)\.then_some\(\(\)\)\s*\.ok_or_else\(Response::BadRequest\)\?;", mv.group(1), re.S)
+    if vchk is None:
+        if 'matches!' in mv.group(1):
+            raise TranslateError('header loop of Request::read: a check of the field value that the translator cannot read')
+        vranges = [(0, 255)]
+    else:
+        ESC = {'t': 9, 'n': 10, 'r': 13, '0': 0, '\\': 92, "'": 39}
+        def byte(t): return ESC[t[1]] if t.startswith('\\') else ord(t)
+        vranges, vt = [], vchk.group(1)
+        vtok = re.compile(r"b'(\\?.)'(?:\s*\.\.=\s*b'(\\?.)')?|0x([0-9A-Fa-f]{2})\s*\.\.(?!=)", re.S)
+        for m3 in vtok.finditer(vt):
+            if m3.group(3): vranges.append((int(m3.group(3), 16), 255))
+            else: vranges.append((byte(m3.group(1)), byte(m3.group(2)) if m3.group(2) else byte(m3.group(1))))
+        if not vranges or vtok.sub('', vt).replace('|', '').strip():
+            raise TranslateError(f'field-value pattern outside the fragment: {vt.strip()!r}')
+    out = ['/-! GENERATED from ohkami/src/request/mod.rs: the bytes admitted in a request header name, and in a header value (closed ranges) -/', 'namespace Ohkami.Gen',
+           'def fieldNameRanges : List (Nat × Nat) := [' + ', '.join(f'({a}, {b})' for a, b in ranges) + ']',
+           'def fieldValueRanges : List (Nat × Nat) := [' + ', '.join(f'({a}, {b})' for a, b in vranges) + ']', 'end Ohkami.Gen']
     return '\n'.join(out) + '\n'
 
 
